@@ -1421,6 +1421,8 @@ pub fn run(args: &Args) -> i32 {
     let nseq = args.extra_u64("nseq", if thorough { 6 } else { 4 });
     // share of cases spent on the (slow) real file: one in `real_every`
     let real_every = args.extra_u64("real-every", if thorough { 150 } else { 100 });
+    // share of VarDCT (JPEG transcode) images among the generated ones: one in `vardct_every`
+    let vardct_every = args.extra_u64("vardct-every", 10);
     let avoid = Avoid::parse(args.extra.get("avoid").map(|s| s.as_str()).unwrap_or(""));
     let real_bytes: Option<Vec<u8>> = std::fs::read(REAL_FILE).ok();
     let mut real_full: Option<(GenImg, FullRender)> = None;
@@ -1457,7 +1459,32 @@ pub fn run(args: &Args) -> i32 {
         // ---------------- generated images
         let multi = rng.chance(1, 4);
         let mut img = None;
+        if vardct_every > 0 && rng.below(vardct_every) == 0 {
+            // VarDCT frame (a transcoded random JPEG: 8x8 blocks, chroma subsampling, chroma-from-luma);
+            // the oracle compares the decoder with itself, so no pixel model of VarDCT is needed
+            if let Some((bytes, spec)) = crate::c17::valid_vardct_image(&mut rng, if thorough { 700 } else { 400 }) {
+                let samp = spec.class.split('|').nth(1).unwrap_or("").to_string();
+                img = Some(GenImg {
+                    bytes,
+                    w: spec.width,
+                    h: spec.height,
+                    orientation: 1,
+                    unit_group: 256,
+                    unit_block: 8 * spec.hmax().max(spec.vmax()) as u32,
+                    unit_up: 1,
+                    feat: format!("vardct-jpeg|{samp}"),
+                    family: "vardct".into(),
+                    desc: format!("VarDCT JPEG transcode {}x{} [{}]", spec.width, spec.height, spec.class),
+                    nontrivial: true,
+                    num_keyframes: 1,
+                    narrow: false,
+                });
+            }
+        }
         for _ in 0..30 {
+            if img.is_some() {
+                break;
+            }
             let g = if multi { gen_multi(&mut rng, max_dim, &avoid) } else { gen_single(&mut rng, max_dim, &avoid) };
             if let Some(i) = g {
                 img = Some(i);
